@@ -6,7 +6,7 @@ open EdbVerif EdbVerif.Sync EdbVerif.Driver
 Line protocol (stateful; one history = an `I` line followed by requests):
 
 * `I g y;db s r c;db s r c;…`   reset: every worker starts with these init args
-* `C w db s r g c y out ns`      `compile` on worker `w`; `out ∈ ok|nostate|raise|spf|unp`
+* `C w db s r g c y out ns`      `compile` on worker `w`; `out ∈ ok|nostate|raise|spf|unp|req`
 * `T w db s p out ns`            `compile_in_tx`; `p` = pickled-state token or `-` for `None`;
                                  `out ∈ ok|raise|mut|spf|unp`
 
@@ -55,7 +55,8 @@ def showSend : TxSend → String
 
 def parseCOut : String → Option COut
   | "ok" => some .ok | "nostate" => some .okNoState | "raise" => some .raise
-  | "spf" => some .statePickleFail | "unp" => some .resultUnpicklable | _ => none
+  | "spf" => some .statePickleFail | "unp" => some .resultUnpicklable
+  | "req" => some .requestUnreadable | _ => none
 
 def parseTOut : String → Option TOut
   | "ok" => some .ok | "raise" => some .raise | "mut" => some .raiseMutated
